@@ -115,7 +115,10 @@ func (w *World) checkStep(prev, cur *snapshot, res StepResult, calls []simvk.Cal
 	}
 
 	// ---- C13: a refused op changes nothing ----
-	if res.Kind == "err" && prev != nil && op.Name != "dend" && op.Name != "dbuf" && op.Name != "dimg" && prev.stateKey != cur.stateKey {
+	// (an operation that failed because an injected driver fault fired is not a refused request: what it may
+	// leave behind - e.g. the new block kept as an empty spare block - is C10's subject, checked below)
+	if res.Kind == "err" && prev != nil && op.Name != "dend" && op.Name != "dbuf" && op.Name != "dimg" && prev.stateKey != cur.stateKey &&
+		!(w.cur.faulted && w.cur.faultsFired > 0) {
 		// the property speaks of live allocations, their locations, device memory held and counters:
 		// the order of blocks inside a list is not part of it (a refused request may re-sort blocks)
 		pl, cl := refusalView(prev.lines), refusalView(cur.lines)
